@@ -75,7 +75,7 @@ fn create_template(tmpl: &str, mv_char: char, transforms: &[String]) -> Template
     // offset = 0, i = 0,
     // 0 1 2
     // $ a $
-    offset = offset + i + 1;
+    offset = offset + i + mv_char.len_utf8();
   }
   if fragments.is_empty() {
     TemplateFix::Textual(tmpl[len..].to_string())
